@@ -239,6 +239,19 @@ fn gen_text(rng: &mut Rng, tier: Tier) -> Vec<u8> {
             out.extend_from_slice(s);
         }
     }
+    if out.len() >= 1100 && rng.chance(1, 3) {
+        // one line break early on and more than a kilobyte without any behind it (a line-buffered console writer
+        // treats the part behind the last line break differently)
+        let cut = rng.below((out.len() - 1060) as u64) as usize;
+        if let Some(p) = (cut..cut + 20).find(|p| out[*p] < 0x80) {
+            for b in out.iter_mut().skip(p) {
+                if *b == b'\n' {
+                    *b = b'.';
+                }
+            }
+            out[p] = b'\n';
+        }
+    }
     out
 }
 
@@ -295,7 +308,7 @@ impl Property for C14 {
                         // buffer ending at the last byte of on-chip RAM or of DRAM
                         end_used[ram_end as usize] = true;
                         let end = if ram_end { 0xffff20u32 } else { 0x600000 };
-                        blocks.push(Block::WriteAt { addr: end - text.len() as u32, text, fd: rng.below(4) as u32 });
+                        blocks.push(Block::WriteAt { addr: end - text.len() as u32, text, fd: if rng.chance(1, 2) { rng.below(4) as u32 } else { *rng.pick(&[0x8000_0000u32, 0xffff_ffff, 0x7fff_ffff, 0x100, 0xffff_fffe]) } });
                     } else {
                         blocks.push(Block::Write { text, dram: rng.chance(1, 3) });
                     }
